@@ -195,7 +195,15 @@ def postVerdict (o : Obj) (impl : Option (List String)) (rows : Option (List Nat
       let n := t.n
       if xs.length % n != 0 then "FAIL:parse" else
       let m := (List.range (xs.length / n)).map (fun i => (xs.drop (i * n)).take n)
-      if !t.nonneg || !validBreaks t.T o.bps then "-" else
+      if !t.nonneg then "-" else
+      if !validBreaks t.T o.bps then
+        -- outside the theorem's domain (recorded finding C13-invalid-breaks): setBreakPoints does not validate
+        -- its argument, forward and backward passes then reset at different positions
+        (match o.core with
+         | .resc _ =>
+           if m.all (fun r => r.all Float.isFinite) && !(m.all (fun r => close (r.foldl (· + ·) 0.0) 1.0))
+           then "FAIL:posterior_invalid_breaks" else "-"
+         | _ => "-") else
       -- double range: with emissions below 1e-100 forward entries underflow to 0 while backward entries
       -- overflow, and the product is NaN; rounding/overflow is outside the exact-arithmetic model
       if t.E.any (fun x => x > 0.0 && x < 1e-100) && m.any (fun r => r.any (fun x => x.isNaN || x.isInf)) then "-" else
